@@ -416,6 +416,12 @@ fn ill_kinded(d: &J) -> String {
     let op = d["op"].as_str().unwrap();
     let pos = d["pos"].as_u64().unwrap() as usize;
     let kind = d["kind"].as_str().unwrap();
+    if kind == "hugesort" {
+        let mut t = String::from("1 sort bitvec 4294967295\n2 input 1 a\n3 sort bitvec 1\n");
+        match op { "slice" => t.push_str("4 slice 3 2 4294967294 4294967294\n"), "not" => t.push_str("4 not 1 2\n"), _ => t.push_str(&format!("4 {op} 3 2\n")) }
+        t.push_str("5 output 4 o\n");
+        return t;
+    }
     if kind == "attr" {
         let mut t = String::from("1 sort bitvec 2\n2 sort bitvec 1\n3 sort bitvec 3\n4 input 1 a\n");
         if op == "slice" { t.push_str(&format!("5 slice {} 4 {} {}\n", d["sort"], d["st"], d["ex"])); }
@@ -502,7 +508,9 @@ pub fn run_c18(args: &[String]) {
             if keep != bytes.len() { let _ = std::fs::write(&out_path, &bytes[..keep]); }
         }
         let mut f = std::fs::OpenOptions::new().append(true).create(true).open(&out_path).unwrap();
-        writeln!(f, "{}", json!({"ev":"Parse","id":format!("i{done}"),"outcome":"abort","loc":format!("{st}"),"msg":"worker process died","exempt_op":"","ops":[],"sys":{},"text":[],"fault_op":"","fault_line":"","at":""})).unwrap();
+        let cur = std::fs::read(format!("{out_path}.current")).map(|b| String::from_utf8_lossy(&b).to_string()).unwrap_or_default();
+        let lines: Vec<String> = cur.lines().take(400).map(|l| l.chars().take(200).collect()).collect();
+        writeln!(f, "{}", json!({"ev":"Parse","id":format!("i{done}"),"outcome":"abort","loc":format!("{st}"),"msg":"worker process died","exempt_op":"","ops":[],"sys":{},"text":lines,"fault_op":"","fault_line":"","at":""})).unwrap();
         aborts += 1;
         start = done + 1;
         if aborts > 200 { break; }
@@ -554,6 +562,8 @@ fn worker_c18(args: &[String]) {
             let base = if i % 3 == 0 { render(&gen_file(&mut rng)) } else { corpus.choose(&mut rng).cloned().unwrap_or_default() };
             (format!("m{i}"), mutate_text(&mut rng, &base), false)
         };
+        // (the supervisor reports the text of an input that kills this process)
+        let _ = std::fs::write(format!("{out_path}.current"), &text);
         let r = c18_record(&id, &text);
         let key = format!("{}|{}|{}", r["outcome"].as_str().unwrap(), r["loc"].as_str().unwrap(), r["fault_op"].as_str().unwrap_or(""));
         let c = counts.entry(key).or_insert(0);
